@@ -28,10 +28,16 @@ val compOpp : comparison -> comparison
 
 val add : nat -> nat -> nat
 
+val eqb : bool -> bool -> bool
+
 module Nat :
  sig
   val eqb : nat -> nat -> bool
  end
+
+val nth : nat -> 'a1 list -> 'a1 -> 'a1
+
+val nth_error : 'a1 list -> nat -> 'a1 option
 
 val rev : 'a1 list -> 'a1 list
 
@@ -39,9 +45,13 @@ val rev_append : 'a1 list -> 'a1 list -> 'a1 list
 
 val concat : 'a1 list list -> 'a1 list
 
+val map : ('a1 -> 'a2) -> 'a1 list -> 'a2 list
+
 val flat_map : ('a1 -> 'a2 list) -> 'a1 list -> 'a2 list
 
 val fold_left : ('a1 -> 'a2 -> 'a1) -> 'a2 list -> 'a1 -> 'a1
+
+val existsb : ('a1 -> bool) -> 'a1 list -> bool
 
 val firstn : nat -> 'a1 list -> 'a1 list
 
@@ -79,6 +89,8 @@ module Coq_Pos :
 
   val pred_double : positive -> positive
 
+  val pred_N : positive -> n
+
   type mask = Pos.mask =
   | IsNul
   | IsPos of positive
@@ -113,6 +125,8 @@ module Coq_Pos :
   val coq_lor : positive -> positive -> positive
 
   val coq_land : positive -> positive -> n
+
+  val testbit : positive -> n -> bool
 
   val iter_op : ('a1 -> 'a1 -> 'a1) -> positive -> 'a1 -> 'a1
 
@@ -158,6 +172,8 @@ module N :
   val coq_land : n -> n -> n
 
   val shiftr : n -> n -> n
+
+  val testbit : n -> n -> bool
 
   val to_nat : n -> nat
 
@@ -566,3 +582,222 @@ val blockTables : ty
 val block : ty
 
 val write_struct : ty -> val0 -> n list * n
+
+val list_eqb : ('a1 -> 'a1 -> bool) -> 'a1 list -> 'a1 list -> bool
+
+val val_eqb : val0 -> val0 -> bool
+
+val tfind_from : n -> val0 list -> val0 -> n option
+
+val tfind : val0 list -> val0 -> n option
+
+val tadd : val0 list -> val0 -> val0 list * n
+
+type tid =
+| T_ip
+| T_ct
+| T_nr
+| T_sig
+| T_qlist
+| T_qrr
+| T_rrlist
+| T_rr
+| T_mmd
+
+type tables = { t_ip : val0 list; t_ct : val0 list; t_nr : val0 list;
+                t_sig : val0 list; t_qlist : val0 list; t_qrr : val0 list;
+                t_rrlist : val0 list; t_rr : val0 list; t_mmd : val0 list }
+
+val tables_empty : tables
+
+val tget : tables -> tid -> val0 list
+
+val tset : tables -> tid -> val0 list -> tables
+
+val add_to : tables -> tid -> val0 -> tables * n
+
+val via : tables -> tid -> val0 option -> tables * val0 option
+
+type bparams = { bp_tps : n; bp_max : n; h_qr : n; h_sig : n; h_rr : 
+                 n; h_other : n }
+
+val nth_o : val0 option list -> nat -> val0 option
+
+val vn : val0 option -> n
+
+val bp_of_val : val0 -> bparams
+
+val bit : n -> n -> val0 option -> val0 option
+
+val filled : val0 option list -> bool
+
+type blk = { b_earliest : ts; b_bpi : n; b_bp : bparams;
+             b_stats : val0 option; b_tb : tables; b_qrs : val0 list;
+             b_aecs : (val0 * n) list; b_mms : val0 list }
+
+val ts0 : ts
+
+val blk_new : bparams -> n -> blk
+
+val blk_clear : blk -> blk
+
+val item_count : blk -> n
+
+val blk_full : blk -> bool
+
+val blk_set_bp : blk -> bparams -> n -> blk * bool
+
+val ts_of_val : val0 -> ts option
+
+val upd_earliest : blk -> val0 option -> ts
+
+val with_stats : val0 option -> val0 option -> val0 option
+
+val rr_name : val0 -> val0 option
+
+val rr_ct : val0 -> val0 option
+
+val rr_ttl : val0 -> val0 option
+
+val rr_rdata : val0 -> val0 option
+
+val oval : val0 option -> val0
+
+val add_questions : tables -> val0 list -> val0 list -> tables * val0 list
+
+val add_generic_qlist : tables -> val0 list -> tables * n
+
+val add_rrs : n -> tables -> val0 list -> val0 list -> tables * val0 list
+
+val add_generic_rrlist : n -> tables -> val0 list -> tables * n
+
+val section : val0 option -> val0 list option
+
+val via_qlist : tables -> n -> n -> val0 option -> tables * val0 option
+
+val via_rrlist : n -> tables -> n -> n -> val0 option -> tables * val0 option
+
+val build_qr :
+  bparams -> val0 option list -> tables -> tables * val0 option list
+
+val add_qr : val0 option list -> val0 option -> blk -> blk * bool
+
+val aec_bump : (val0 * n) list -> val0 -> (val0 * n) list
+
+val add_aec : val0 option list -> val0 option -> blk -> blk * bool
+
+val build_mm : val0 option list -> tables -> tables * val0 option list
+
+val add_mm : val0 option list -> val0 option -> blk -> blk * bool
+
+val to_u64 : z -> n
+
+val offset_val : ts -> n -> val0 -> val0
+
+val conv_item : ts -> n -> val0 -> val0
+
+val aec_val : (val0 * n) -> val0
+
+val ne_list : val0 list -> val0 option
+
+val tables_val : tables -> val0 option
+
+val ts_val : ts -> val0
+
+val blk_val : blk -> val0
+
+type exporter = { x_major : val0 option; x_minor : val0 option;
+                  x_private : val0 option; x_params : val0 list; x_blk : 
+                  blk; x_active : n; x_written : n; x_enc : enc;
+                  x_closed : n list list; x_done : blk list }
+
+val preamble_val : exporter -> val0
+
+val nth_bp : val0 list -> n -> bparams
+
+val x_new : val0 -> exporter
+
+val enc_run : enc -> eop list -> enc * n
+
+val cdns_text : n list
+
+val header_ops : exporter -> eop list
+
+val with_enc : exporter -> enc -> n -> exporter
+
+val with_blk : exporter -> blk -> exporter
+
+val write_block_ext : exporter -> blk -> exporter * n
+
+val write_block : exporter -> exporter * n
+
+val buffer : (blk -> blk * bool) -> exporter -> exporter * n
+
+val buffer_qr : val0 option list -> val0 option -> exporter -> exporter * n
+
+val buffer_aec : val0 option list -> val0 option -> exporter -> exporter * n
+
+val buffer_mm : val0 option list -> val0 option -> exporter -> exporter * n
+
+val rotate : bool -> exporter -> exporter * n
+
+val destroy : exporter -> n list
+
+val add_block_parameters : val0 -> exporter -> exporter * n
+
+val set_active : n -> exporter -> exporter * bool
+
+val upper : n -> n
+
+val read_file_header : nat -> (val0 * (n * bool)) prog
+
+type rblock = { r_earliest : val0; r_bpi : val0 option; r_bp : bparams;
+                r_stats : val0 option; r_tables : val0 option list;
+                r_qrs : val0 list; r_aecs : (val0 * n) list; r_mms : 
+                val0 list }
+
+val params_of : val0 -> val0 list
+
+val resolve_time : ts -> n -> val0 -> val0 option
+
+val resolve_all : ts -> n -> val0 list -> val0 list option
+
+val aec_merge : (val0 * n) list -> val0 -> n -> (val0 * n) list
+
+val aec_key : val0 -> val0 * n
+
+val lst : val0 option -> val0 list
+
+val block_of_val : val0 list -> val0 -> rblock prog
+
+val read_block_body : nat -> val0 list -> rblock prog
+
+type rstate = { rs_pre : val0; rs_count : n; rs_read : n; rs_indef : bool }
+
+val reader_open : nat -> rstate prog
+
+val reader_next : nat -> rstate -> (rblock option * rstate) prog
+
+val read_blocks : nat -> nat -> rstate -> rblock list -> rblock list prog
+
+val read_file : nat -> (val0 * rblock list) prog
+
+val tl_get : val0 option list -> nat -> val0 option -> val0 option option
+
+val obind : 'a1 option -> ('a1 -> 'a2 option) -> 'a2 option
+
+val fields_of : val0 option -> val0 option list
+
+val gen_qs : val0 option list -> val0 list -> val0 list option
+
+val gen_rrs : val0 option list -> val0 list -> val0 list option
+
+val gen_qlist : val0 option list -> val0 option -> val0 option option
+
+val gen_rrlist : val0 option list -> val0 option -> val0 option option
+
+val gen_qr : val0 option list -> val0 -> val0 option
+
+val gen_aec : val0 option list -> (val0 * n) -> val0 option
+
+val gen_mm : val0 option list -> val0 -> val0 option
